@@ -54,7 +54,7 @@ PROPS = {
                                               ("base_d", "c10d", 2, 1500, 40000, "skew_d"), ("base_q", "c10q", 2, 1500, 40000, "skew_q"), ("base_m", "c10m", 2, 1500, 40000, "skew_m"),
                                               ("skew_d", "c10ld", 1, 1500, 40000), ("skew_m", "c10hm", 1, 60, 600)],
                 rule="a run = one seeded plan (family, configuration, history with checkpoints in every format variant) executed by BOTH the frozen baseline build (/verif/baseline = pinned commit + hook) and the current build; each side dumps image + what it reads back from it; the other side must read every image to the same version-stable observation (upgrade: skew_* reads base_* dumps; downgrade: base_* reads skew_* dumps), plus documented serial-version / family-id bytes, the 15 shipped reference images read identically by both versions, legacy Theta v1/v2 images (empty, exact, estimation shapes) synthesised by an encoder written from the layout and read through the bytes, stream and wrap readers, and inputs of every length 1..100 bytes hashed against the independent MurmurHash3 / XXH64; non-trivial = at least one peer image read; distinct = distinct plan hash"),
-    "C11": dict(level="fault_enumeration", units=[("store_d", "c11d", 6, 120, 6000), ("store_q", "c11q", 5, 100, 5000), ("store_m", "c11m", 5, 100, 5000)],
+    "C11": dict(level="fault_enumeration", units=[("store_d", "c11d", 6, 120, 2400), ("store_q", "c11q", 5, 100, 2000), ("store_m", "c11m", 5, 100, 2000)],
                 rule="a run = one sampled valid image (family, variant, configuration, seeded history) whose fault space is enumerated completely: every strict prefix x {bytes, stream} and every byte of the first 64 x 8 replacement values x {bytes, stream}; non-trivial = at least one fault executed; distinct = distinct plan hash (image)"),
 }
 COMPONENTS = dict(real=["every datasketches-cpp header reached through the public API of the family under test (built from the working tree with -DDATASKETCHES_VERIF)"],
